@@ -68,6 +68,13 @@ MUST_FIRE = [
     ("zliobaite-closed-form-decay", ["C04", "C10"], ["R4.4", "R10.3"], BZ,
      "        for s in queried:\n            self.u_t_ = self.u_t_ * ((self.w - 1) / self.w) + s\n",
      "        n = len(queried)\n        decay = (self.w - 1) / self.w\n        self.u_t_ = self.u_t_ * decay**n + np.sum(queried * decay ** (n - 1))\n"),
+    ("nic-zero-weight-check-unmasked", ["C12"], ["R12.1"], P + "regressor/_nic_kernel_regressor.py",
+     "if np.sum(self.weights_) == 0:", "if np.sum(sample_weight) == 0:"),
+    ("saw-aperf-unit-range-shortcut", ["C20"], ["R20.3"], P + "pool/multiannotator/_wrapper.py",
+     "            if A_perf.min() != A_perf.max():\n                A_perf = (\n                    1\n                    / (A_perf.max() - A_perf.min() + 1)\n                    * (A_perf - A_perf.min())\n                )\n            else:\n                A_perf = np.zeros_like(A_perf, dtype=float)\n",
+     "            if A_perf.min() == A_perf.max():\n                A_perf = np.zeros_like(A_perf, dtype=float)\n            elif A_perf.min() < 0 or A_perf.max() > 1:\n                A_perf = (\n                    1\n                    / (A_perf.max() - A_perf.min() + 1)\n                    * (A_perf - A_perf.min())\n                )\n            else:\n                A_perf = A_perf.astype(float)\n"),
+    ("vote-vectors-ravel-memory-order", ["C17", "C12"], ["R17.2", "R12.3"], P + "utils/_aggregation.py",
+     "weights=w.ravel()", "weights=w.ravel(order=\"K\")"),
     # ---- C03
     ("split-set-state-deleted", ["C03"], ["R3"], BZ,
      "        self.random_state_.set_state(random_state_state)\n", "        pass\n"),
